@@ -182,6 +182,7 @@ def generate(rng, tier):
     add(reglib.gen_long_label_history, 60 * k, "long-label")
     add(reglib.gen_two_daemon_history, 100 * k, "daemons")
     add(reglib.gen_prefix_tiebreak_history, 160 * k, "prefix")
+    add(reglib.gen_shared_host_history, 160 * k, "sharedhost")
     add(reglib.gen_iface_toggle_history, 40 * k, "toggle")
     # every offset of the prefix pair around the probe steps
     for o in (0, 1, 100, 249, 250, 251, 400, 500, 700):
